@@ -292,6 +292,29 @@ def tkey(t):
     return json.dumps(t, sort_keys=True)
 
 
+def base_key(t):
+    return tkey({'engine': t['engine'], 'version': t['version'], 'file': t['file'], 'gen': t.get('gen')})
+
+
+def all_plus(t):
+    return (t.get('plus') or []) + (t.get('plus_readme') or []) + (t.get('plus_bare') or [])
+
+
+def want_builtins(base, t, loaded):
+    """of the names the harness reports on, those in (base \\ minus) U plus"""
+    names = [n for n in INTERESTING] + sorted((set(base) | set(loaded)) - set(INTERESTING))
+    minus, plus = set(t.get('minus') or []), set(all_plus(t))
+    return [n for n in names if n in plus or (n in base and n not in minus)]
+
+
+def error_class(msg):
+    """an error message without versions, paths, quoted values"""
+    m = re.sub(r"'[^']*'|\"[^\"]*\"", '<v>', msg or '')
+    m = re.sub(r'v?\d+\.\d+\.\d+[-\w.]*', '<version>', m)
+    m = re.sub(r'(/[\w.@-]+)+', '<path>', m)
+    return re.sub(r'\s+', ' ', m).strip()[:160]
+
+
 def run(ctx):
     phases, t_last = {}, [time.time()]
 
@@ -310,6 +333,10 @@ def run(ctx):
         rp = json.load(open(ctx.replay))
         corpus = [rp['case']] if 'case' in rp else []
         tier = 'replay' if corpus else ctx.tier
+        for c_ in list(corpus):    # the base of an edited target is needed to say what (base \ minus) U plus is
+            t = c_.get('target') or {}
+            if t.get('minus') or all_plus(t):
+                corpus.append({'target': dict(t, minus=None, plus=None, plus_bare=None, plus_readme=None), 'files': [], 'disabled': None})
     else:
         corpus = [json.load(open(f))['case'] for f in sorted(glob.glob(os.path.join(vlib.VERIF, 'corpus', 'C19', '*.json')))]
     json.dump(corpus, open(cases_file, 'w'))
@@ -329,6 +356,7 @@ def run(ctx):
     ign = default_ignored()
     for r in recs:   # canonical: temp paths out of the replayable input
         r['in']['target'] = {k: v for k, v in r['in']['target'].items()}
+        r['in']['files'] = r['in'].get('files') or []     # function-level cases have no files (Go: null)
         if r['in'].get('pipe'):
             r['in']['disabled_eff'] = eff_disabled(r['in'], ign)
     cfg_errs = [r for r in recs if r['out'].get('config_err')]
@@ -355,15 +383,21 @@ def run(ctx):
         t = r['in']['target']
         if r['in'].get('pipe'):
             continue
-        if not t.get('minus') and not t.get('plus') and not t.get('plus_bare') and not t.get('plus_readme') and not t.get('gen'):
-            base_of[tkey({'engine': t['engine'], 'version': t['version'], 'file': t['file']})] = r['out']['builtins'] or []
+        if not t.get('minus') and not t.get('plus') and not t.get('plus_bare') and not t.get('plus_readme'):
+            base_of[base_key(t)] = r['out']['builtins'] or []
+    # the target capabilities the configuration asks for: (base \ minus) U plus as a SET, whatever the order of the
+    # lists, entries the base does not have, duplicates (python's own reading; the Lint predicate below uses it)
+    for r in ok:
+        t = r['in']['target']
+        if (t.get('minus') or all_plus(t)) and base_key(t) in base_of and (r['in'].get('pipe') or {}).get('cfg') not in ('nil', 'empty'):
+            r['want_builtins'] = want_builtins(base_of[base_key(t)], t, r['out']['builtins'] or [])
     pcases, pseen = [], set()
     for r in ok:
         t = r['in']['target']
         if not (t.get('minus') or t.get('plus') or t.get('plus_bare') or t.get('plus_readme')) or r['in'].get('pipe'):
             continue
-        bk = tkey({'engine': t['engine'], 'version': t['version'], 'file': t['file']})
-        if bk not in base_of or t.get('gen'):
+        bk = base_key(t)
+        if bk not in base_of:
             continue
         key = json.dumps([bk, t.get('minus'), t.get('plus'), t.get('plus_bare'), t.get('plus_readme')], sort_keys=True)
         if key in pseen:
@@ -402,7 +436,7 @@ def run(ctx):
           'Print F1. Print F2. Print L1. Print L2. Print P1. Print P2.']
     # the generated files, as loaded, realise every on/off assignment of the dimensions the model's needs table reads
     # (Model/Notices.v dims_covered; Props/C19.v c19_covering_targets_suffice says why that is enough)
-    gen_ok = [r for r in ok if r['in']['target'].get('gen') and not r['in'].get('pipe')]
+    gen_ok = [r for r in ok if r['in']['target'].get('gen') and not r['in'].get('pipe') and r['stream'] != 'list']
     gen_caps = sorted({c_caps(r['out']) for r in gen_ok})
     if gen_targets:
         v += ['Definition D1 := Eval vm_compute in (if dims_covered needs_table %s then [] else [0%%nat]).' % clist(gen_caps), 'Print D1.',
@@ -431,10 +465,29 @@ def run(ctx):
 
     # ---- the property evaluated in python on the implementation's own outputs ----------------------------------
     bad = []     # (record, kind of failure, detail)
-    for r in cfg_errs:
-        bad.append((r, 'config-load-failed', r['out']['config_err']))
-    for r in lint_errs:
-        bad.append((r, 'lint-failed', r['out']['lint_err']))
+    # "linting succeeds for any target": an error while loading the configuration or linting is recorded per target and is
+    # a violation with that target as the replay; for an embedded version (no edits, no file) it is named as such
+    err_targets = {}
+    for r, what, msg in [(r, 'config-load-failed', r['out']['config_err']) for r in cfg_errs] + \
+                        [(r, 'lint-failed', r['out']['lint_err']) for r in lint_errs]:
+        t = r['in']['target']
+        embedded = bool(t['engine']) and not t.get('file') and not t.get('gen') and not (t.get('minus') or all_plus(t)) and not r['in'].get('pipe')
+        kind = 'linting-failed-for-embedded-version' if embedded else what
+        name = '%s %s' % (t['engine'], t['version']) if t['engine'] else 'target without embedded version'
+        cls = error_class(msg)
+        err_targets.setdefault(kind + ': ' + cls, set()).add(name)
+        bad.append((r, kind, {'message': 'linting failed for %s %s: %s' % ('embedded version' if embedded else 'target', name, cls),
+                              'stage': what, 'error_class': cls, 'error': msg, 'all_targets_failing_like_this': err_targets[kind + ': ' + cls]}))
+    for _, _, d_ in bad:
+        d_['all_targets_failing_like_this'] = sorted(d_['all_targets_failing_like_this'])
+    for r in ok:
+        if 'want_builtins' in r and set(r['want_builtins']) != set(r['out']['builtins'] or []):
+            t = r['in']['target']
+            bad.append((r, 'target-capabilities-not-base-minus-plus',
+                        {'base': base_of[base_key(t)], 'minus': t.get('minus'), 'plus': all_plus(t), 'expected_(base-minus)+plus': r['want_builtins'],
+                         'loaded': r['out']['builtins'] or [],
+                         'kept_although_in_minus': sorted(set(r['out']['builtins'] or []) - set(r['want_builtins'])),
+                         'lost': sorted(set(r['want_builtins']) - set(r['out']['builtins'] or []))}))
     baseline = {}  # rule -> kind -> count of the rule body under the default target
     for r in ok:
         if r['in']['target']['engine'] == '' and not any(r['in']['target'].get(k) for k in ('minus', 'plus', 'plus_bare', 'plus_readme', 'gen')):
@@ -446,6 +499,8 @@ def run(ctx):
     for r in lint_ok:
         cin, out = r['in'], r['out']
         notices = out['notices']
+        # needs are judged against the capabilities the configuration ASKS for ((base \ minus) U plus), not against what was loaded
+        out_want = dict(out, builtins=r['want_builtins']) if 'want_builtins' in r else out
         keyset = [json.dumps(n, sort_keys=True) for n in notices]
         if len(set(keyset)) != len(keyset):
             bad.append((r, 'duplicate-notices', notices))
@@ -477,7 +532,7 @@ def run(ctx):
                     if nviol or listed:
                         bad.append((r, 'disabled-rule-reported-or-listed', {'rule': rule, 'file': f, 'violations': nviol, 'listed': listed}))
                     continue
-                unmet = [(sev, nd) for sev, nd in needs if need_unmet(nd, out, kind)]
+                unmet = [(sev, nd) for sev, nd in needs if need_unmet(nd, out_want, kind)]
                 for sev, nd in unmet:
                     listed = any(n['category'] == c and n['title'] == t and n['severity'] == sev for n in notices)
                     if nviol or not listed:
@@ -600,13 +655,16 @@ def run(ctx):
     proof_gate(ctx)
 
     targets = {tkey(r['in']['target']) for r in recs}
+    list_recs = [r for r in ok if r['stream'] == 'list' and (r['in']['target'].get('minus') or all_plus(r['in']['target']))]
     sigs = {json.dumps([r['out']['builtins'], r['out']['future_keywords'], r['out']['features']]) for r in ok}
     cov = proof_coverage(ctx, {
         'evaluations': len(recs),
         'distinct_nontrivial': len(fcases) + len({json.dumps([r['out']['builtins'], r['out']['future_keywords'], r['out']['features'],
                                                               [kind_of(f) for f in r['in']['files']]]) for r in lint_ok}),
         'rule': 'targets: no capabilities section, every OPA version of ast.LoadCapabilitiesVersions, every EOPA version embedded in /repo, a capabilities '
-                'file, minus/plus edits over all subsets of {sprintf, strings.count, object.keys}, and GENERATED capabilities files '
+                'file, minus/plus edits over all subsets of {sprintf, strings.count, object.keys}, minus/plus LISTS as lists (every ordering, entries absent '
+                'from the base, duplicates, a name in both lists; bases = oldest+newest embedded version of every presence pattern of the three names; '
+                'expected = (base - minus) + plus as a set), and GENERATED capabilities files '
                 '(capabilities.from.file) for every subset of the dimensions any gate reads (built-in functions, future keywords, features: '
                 'derived from the needs table and from the conditions in the .rego sources), each linted with the v0 and the v1 trigger policy. Function level for EVERY target x {v0 file, v1 file, '
                 'stdin}: real capabilities.rego predicates, notices and report of every gated rule evaluated directly. Lint level: 6 file sets '
@@ -620,6 +678,14 @@ def run(ctx):
         'targets': len(targets), 'distinct_capability_signatures': len(sigs), 'fn_cases_distinct': len(fcases), 'lint_cases': len(lint_ok),
         'plus_minus_cases': len(pcases), 'one_vs_copies_pairs': copies_checked, 'rules_skipped_histogram': hist,
         'config_errors': len(cfg_errs), 'lint_errors': len(lint_errs), 'harness_errors': len(fn_errs),
+        'errors_by_class_and_target': {k: sorted(v_) for k, v_ in sorted(err_targets.items())},
+        'embedded_versions_loaded_at_function_level': len({tkey(r['in']['target']) for r in ok if r['stream'] == 'fn' and r['in']['target']['engine']}),
+        'minus_plus_list_cases': {'cases': len(list_recs), 'linted': len([r for r in list_recs if r['in']['files']]),
+                                  'bases': len({base_key(r['in']['target']) for r in list_recs}),
+                                  'with_entry_absent_from_base': len([r for r in list_recs if set(r['in']['target'].get('minus') or []) - set(base_of.get(base_key(r['in']['target']), []))]),
+                                  'with_duplicates': len([r for r in list_recs if len(set(r['in']['target'].get('minus') or [])) != len(r['in']['target'].get('minus') or [])]),
+                                  'name_in_minus_and_plus': len([r for r in list_recs if set(r['in']['target'].get('minus') or []) & set(all_plus(r['in']['target']))]),
+                                  'expected_set_checked': len([r for r in ok if 'want_builtins' in r])},
         'mismatch_model_fn': len(f1), 'mismatch_needs_fn': len(f2), 'mismatch_model_lint': len(l1), 'mismatch_spec_lint': len(l2),
         'mismatch_model_plusminus': len(p1), 'mismatch_spec_plusminus': len(p2), 'python_predicate_failures': len(bad),
         'pipeline_cases': {'lint_runs': len(pipe_ok), 'mismatch_model_pipeline': len(pp1), 'mismatch_spec_pipeline': len(pp2),
